@@ -8,6 +8,7 @@
 #include <cstdio>
 #include <cstdlib>
 #include <cstring>
+#include <future>
 #include <map>
 #include <memory>
 #include <mutex>
@@ -347,6 +348,63 @@ static void s9(int seed, int nthreads, int iters)
   if (outer.records != accepted) { std::printf("FAIL trace records=%ld accepted calls=%ld\n", static_cast<long>(outer.records), static_cast<long>(accepted)); ++fatal_reports; }
 }
 
+// S10: every operation gives the lock back on every path — the violation paths included (a report from a destructor, a
+// fatal report thrown out of a call, a mock that dies before its expectations).  Thread A performs one such operation
+// and then stays alive and idle; an operation on an unrelated mock in another thread must then complete.  (The mutex is
+// recursive, so a thread that keeps the lock does not notice it itself.)
+static void s10(int seed, int nthreads, int iters)
+{
+  (void)nthreads; (void)seed;
+  static char const* const what[] = {"unexpected destruction of a deathwatched object", "release of an unfulfilled expectation",
+    "call without a matching expectation", "forbidden call", "destruction of a mock with a pending expectation, then its release",
+    "call out of sequence", "release of a destruction requirement whose object is alive", "accepted call and queries"};
+  for (int i = 0; i < iters / 4 + 8; ++i) {
+    int kind = i % 8;
+    std::atomic<int> stage{0};
+    std::thread A([&] {
+      M m;
+      switch (kind) {
+      case 0: { auto* o = new DW; delete o; break; }
+      case 1: { auto e = NAMED_REQUIRE_CALL(m, g(1)); e.reset(); break; }
+      case 2: { try { m.g(1); } catch (Reported const&) {} break; }
+      case 3: { FORBID_CALL(m, g(1)); try { m.g(1); } catch (Reported const&) {} break; }
+      case 4: { auto* mm = new M; auto e = NAMED_REQUIRE_CALL(*mm, g(1)); delete mm; e.reset(); break; }
+      case 5: {
+        trompeloeil::sequence sq;
+        auto e1 = NAMED_REQUIRE_CALL(m, g(1)).IN_SEQUENCE(sq);
+        auto e2 = NAMED_REQUIRE_CALL(m, g(2)).IN_SEQUENCE(sq);
+        try { m.g(2); } catch (Reported const&) {}
+        m.g(1); m.g(2);
+        if (!sq.is_completed()) ++fatal_reports;
+        break;
+      }
+      case 6: { auto* o = new DW; auto d = NAMED_REQUIRE_DESTRUCTION(*o); d.reset(); delete o; break; }
+      default: { auto e = NAMED_REQUIRE_CALL(m, f(1)).RETURN(2); if (m.f(1) != 2 || !e->is_satisfied() || !e->is_saturated()) ++fatal_reports; break; }
+      }
+      stage = 1;
+      while (stage.load() != 2) std::this_thread::sleep_for(std::chrono::microseconds(50));
+    });
+    while (stage.load() == 0) std::this_thread::yield();
+    auto fut = std::async(std::launch::async, [] {
+      M m2;
+      auto e = NAMED_REQUIRE_CALL(m2, g(7));
+      m2.g(7);
+      bool ok = e->is_satisfied();
+      e.reset();
+      return ok;
+    });
+    if (fut.wait_for(std::chrono::seconds(5)) != std::future_status::ready) {
+      std::printf("FAIL lock not given back: after %s in a thread that is now idle, an operation on an unrelated mock in another thread "
+                  "does not complete within 5 s\n", what[kind]);
+      std::fflush(stdout);
+      std::_Exit(1);
+    }
+    if (!fut.get()) ++fatal_reports;
+    stage = 2;
+    A.join();
+  }
+}
+
 // F1: forced schedules at critical-section granularity.  Thread K holds the library's global lock (public API:
 // trompeloeil::get_lock(), recursive), lets thread R start its operation — which has to wait for the lock — performs its
 // own operation under the lock and releases it.  R's operation therefore takes effect after K's: the outcome must be the
@@ -467,6 +525,7 @@ int main(int argc, char** argv)
   else if (sc == "s7") s7(seed, nthreads, iters);
   else if (sc == "s8") s8(seed, nthreads, iters);
   else if (sc == "s9") s9(seed, nthreads, iters);
+  else if (sc == "s10") s10(seed, nthreads, iters);
   else if (sc == "f1") f1(seed, nthreads, iters / 2);
   else if (sc == "l1") l1(seed, nthreads, iters);
   else { std::printf("unknown scenario\n"); return 2; }
